@@ -251,9 +251,12 @@ class ProgGen(object):
         elif k < 0.73 and f.get("inch", False) and not self.retracted:
             self.unit = 25.4 if self.unit == 1.0 else 1.0
             self.emit("G20" if self.unit != 1.0 else "G21")
-        elif k < 0.82:
-            pool = list(self.MISC) if f.get("ext", True) else ["M104 S200", "M106 S255", "M400", "T0"]
-            self.emit(r.choice(pool))
+        elif k < 0.82 or (f.get("extgen") and k < 0.82 + f.get("p_ext", 0.0)):
+            if f.get("extgen") and r.random() < 0.8:
+                self.steps.append(["g", f["extgen"](r)])
+            else:
+                pool = list(self.MISC) if f.get("ext", True) else ["M104 S200", "M106 S255", "M400", "T0"]
+                self.emit(r.choice(pool))
         elif k < 0.87 and f.get("arcs", False) and (self.abs or f.get("arcs_rel", False)):
             self.arc()
         elif k < 0.90 and f.get("at", False):
